@@ -10,7 +10,7 @@ rustc (thorough: plus seeded random receivers).  Thorough: compile-fail witness 
 closures.  Not decided: option combinations outside the corpus."""
 import re
 
-from vlib import mir, scan, tpl
+from vlib import resalg, mir, scan, tpl
 from . import common
 
 META = dict(
@@ -212,6 +212,25 @@ def run(ctx):
                 pc = [sorted(d) for d in ctx.pc_strs(f, T.by_stream[s][0].blk)]
                 ctx.ob("C20.H.default-declared-before-use", f.key, "fn-body template with field initialisers", declares_default,
                        "F19: field initialisers can read `__default` (a field inherits the container-level default) but this fn-body template never declares it; emitted under %s" % pc)
+    # ---------------------------------------------------------------- trait uses are covered by emitted bounds
+    # the templates name `<#ty as ::darling::FromMeta>` for every non-skipped field (from_none() in
+    # the presence check even when `with` supplies the converter): the bound inference must walk the
+    # type of every field it is asked about, unconditionally, and may leave out skipped fields only
+    for rx, want in ((r"^<darling_core::codegen::field::Field<'_> as darling_core::usage::type_params::UsesTypeParams>::uses_type_params$",
+                      "<syn::ty::Type as darling_core::usage::type_params::UsesTypeParams>::uses_type_params(self.ty, a2, a3)"),
+                     (r"^<darling_core::codegen::variant::Variant<'_> as darling_core::usage::type_params::UsesTypeParams>::uses_type_params$",
+                      "<darling_core::ast::data::Fields<T> as darling_core::usage::type_params::UsesTypeParams>::uses_type_params(self.data, a2, a3)")):
+        cands = ctx.fns_matching(rx)
+        if not cands:
+            ctx.anchor_missing("C20.S.bounds-cover-trait-uses", rx, "walker not found")
+            continue
+        cs = resalg.cases(ctx, cands[0])
+        ctx.ob("C20.S.bounds-cover-trait-uses", cands[0].key, "walks its type on every path", cs == [([], want)], "cases %s" % cs)
+    f = ctx.fn("darling_core::codegen::trait_impl::TraitImpl::<'a>::used_type_params", required=False)
+    if f:
+        preds = [ctx.true_conditions(c) for c in ctx.closures_of(f)]
+        ok = len(preds) == 2 and all(p == [{"a2.skip=False"}] for p in preds)
+        ctx.ob("C20.S.bounds-cover-trait-uses", f.key, "only skipped fields / variants are left out", ok, "filters keep an element under %s" % preds)
     # ---------------------------------------------------------------- filled ⇒ consumed (F16)
     from .C16 import magic_table
     consumers = {
